@@ -63,6 +63,11 @@ def synthetic_grammars():
         out.append(table_grammar('G7', ['A', 'C'], ['A', 'B'],
                                  {('A', 'A'): [('A', 'aa')], ('C', 'A'): [('B', 'ca')], ('B', 'A'): [('A', 'ba')], ('A', 'C'): [('C', 'ac')]},
                                  {'A': [('B', 'u_ab')], 'C': [('A', 'u_ca')]}, hl))
+        # G9 / G10: the rules of G2 under other root sets (a root that is also a lexical tag and a unary result; no root at all)
+        g2 = dict(bin_table={('A', 'B'): [('S', 'ab')], ('B', 'A'): [('S', 'ba')], ('A', 'A'): [('A', 'aa')], ('S', 'A'): [('S', 'sa')]}, un_table={'B': [('A', 'u_ba')]})
+        out.append(table_grammar('G9', ['A', 'B'], ['A'], g2['bin_table'], g2['un_table'], hl))
+        if hl:
+            out.append(table_grammar('G10', ['A', 'B'], [], g2['bin_table'], g2['un_table'], hl))
         # G6 three-category grammar of the hand counter-example for the outside estimate
         out.append(table_grammar('G6', ['X'], ['S'], {('X', 'X'): [('Z', 'xx')], ('Z', 'X'): [('S', 'zx')], ('X', 'Z'): [('S', 'xz')]}, {}, hl))
     return out
